@@ -35,18 +35,27 @@ def grid_values():
 
 
 class ExprCase:
-    def __init__(self, ast, equs=None, nlabel=0, spell=None, tag="", via_macro=False, via="dq"):
+    def __init__(self, ast, equs=None, nlabel=0, spell=None, tag="", via_macro=False, via="dq", twin=None):
         self.ast, self.equs, self.nlabel, self.tag, self.via = ast, equs or {}, nlabel, tag, via
+        self.skip = 8 if twin is not None else 0
         self.spell = spell or Spell()
         lines = [equ(n, e) for n, e in self.equs.items()]
         # labels l1..ln on consecutive nops: label li has value i-1
         lines += [instr("nop", lab="l%d" % (i + 1)) for i in range(nlabel)]
+        if twin is not None and via_macro:
+            lines += [line("macro", n="put"), data(8, ARG(0)), line("endm"), call("put", E(twin)), call("put", E(ast))]
+            via = "done"
+        elif twin is not None:
+            # a line before it that reads almost the same and means something else: 8 bytes of its own
+            lines.append(data(8, E(twin)))
         if via == "byte":
             # the expression is the size of a reservation: the RAM usage reported is its value
             lines += [seg("data"), byte(ast), seg("code"), instr("nop")]
         elif via == "org":
             # the expression is an origin: the image ends one word behind it
             lines += [org(ast), instr("nop")]
+        elif via == "done":
+            pass
         elif via_macro:
             # the expression reaches the data directive as a macro argument: it means there what it means here
             lines += [line("macro", n="put"), data(8, ARG(0)), line("endm"), call("put", E(ast))]
@@ -167,6 +176,24 @@ def error_propagation():
     return out
 
 
+def twins():
+    """Two lines that differ only in the letter case of a character constant (or in nothing but what a name stands for):
+    each has its own value.  Observed on the second line."""
+    out = []
+    pairs = [(num(ord("a")), num(ord("A"))), (num(ord("A")), num(ord("a"))), (num(ord("z")), num(ord("Z"))), (num(ord("Q")), num(ord("q")))]
+    wraps = [lambda e: e, lambda e: binop("+", e, num(1)), lambda e: binop("-", e, num(ord("0"))), lambda e: fn("low", e), lambda e: un("-", e),
+             lambda e: binop("|", binop("<<", e, num(8)), e), lambda e: binop("==", e, num(ord("a")))]
+    for a, b in pairs:
+        for w in wraps:
+            # (every number that is a printable character is written as a character constant)
+            out.append(ExprCase(w(copy.deepcopy(b)), twin=w(copy.deepcopy(a)), tag="twins", spell=Spell(radix="chr")))
+            out.append(ExprCase(w(copy.deepcopy(b)), twin=w(copy.deepcopy(a)), tag="twins", via_macro=True, spell=Spell(radix="chr")))
+    # the same text twice: a value is a value, whatever was on the line before
+    for e in (binop("+", num(3), num(4)), num(ord("a")), binop("*", sym("k"), num(2))):
+        out.append(ExprCase(copy.deepcopy(e), twin=copy.deepcopy(e), equs={"k": num(21)}, tag="twins"))
+    return out
+
+
 def other_positions(rnd, tier):
     """The operand of .byte and of .org is a constant expression like any other: it has the table's value there, and division by
     zero, overflow and unknown functions fail the build there as well.  (Names that are not known when the line is read are a
@@ -211,7 +238,7 @@ def check(prop, tier, seed):
     scratch = Scratch(prop)
     v = Verdict(prop, tier, seed, "model_checking")
     try:
-        cases = grid() + shapes(tier) + spelled(rnd, tier) + error_propagation() + chains() + other_positions(rnd, tier)
+        cases = grid() + shapes(tier) + spelled(rnd, tier) + error_propagation() + chains() + other_positions(rnd, tier) + twins()
         g = grid_values()
         for _ in range(3000 if tier == "quick" else 60000):
             cases.append(ExprCase(random_tree(rnd, rnd.randrange(2, 7), g), tag="random"))
@@ -232,7 +259,7 @@ def check(prop, tier, seed):
                     ev["res"] = "shape"
             elif r["r"] == "ok":
                 code = unhex(r["code"])
-                ev["b"] = code[2 * c.nlabel:]
+                ev["b"] = code[2 * c.nlabel + c.skip:]
                 if len(ev["b"]) != 8 or any(code[:2 * c.nlabel]) or r["eeprom"]:
                     ev["res"] = "shape"
             events.append(ev)
@@ -275,7 +302,7 @@ def check(prop, tier, seed):
             "evaluations": len(events), "distinct_nontrivial": len({c.src for c in cases}),
             "rule": "grid: 18 binary operators x G x G, 3 unary and 8 functions x G with G = %d boundary values; all depth-2 operator shapes with "
                     "small leaves rendered with only the required parentheses; leaves in 6 radices / as .equ symbols / as labels in 3 letter cases; "
-                    "an undefined name / zero divisor / overflow on either side of every operator; names defined through chains of other names used repeatedly; names beginning like registers or functions; seeded random trees of depth 2-6; the same evaluation as the size of a .byte reservation (observed: RAM usage) and as an origin (observed: where the next instruction lands), with failing and small-valued trees; distinct = distinct sources" % len(g),
+                    "an undefined name / zero divisor / overflow on either side of every operator; names defined through chains of other names used repeatedly; names beginning like registers or functions; seeded random trees of depth 2-6; twin lines that differ only in the letter case of a character constant; the same evaluation as the size of a .byte reservation (observed: RAM usage) and as an origin (observed: where the next instruction lands), with failing and small-valued trees; distinct = distinct sources" % len(g),
             "tags": _count(c.tag.split(".")[0] for c in cases),
             "observed_ok": len(oks), "observed_err": len(errs), "observed_other": len(events) - len(oks) - len(errs),
             "rejected_events": len([i for i in rejected if i < len(events)]),
